@@ -419,6 +419,125 @@ async fn spawn_case(spec: &Spec, o: Opts, hook: Hook, casedir: &Path, helper: &P
 	Ok((v, seen))
 }
 
+/// Every way a job spawns a *replacement*: the spawn hook must run, and its changes must
+/// be visible to the new process, on each of them.
+#[derive(Clone, Copy, Debug, PartialEq, Serialize, Deserialize)]
+#[serde(rename_all = "kebab-case")]
+enum Respawn {
+	Restart,
+	TryRestart,
+	GracefulRestartWithinGrace,
+	GracefulRestartBeyondGrace,
+	TryGracefulRestartWithinGrace,
+	TryGracefulRestartBeyondGrace,
+	StopThenStart,
+}
+
+const RESPAWNS: [Respawn; 7] = [
+	Respawn::Restart,
+	Respawn::TryRestart,
+	Respawn::GracefulRestartWithinGrace,
+	Respawn::GracefulRestartBeyondGrace,
+	Respawn::TryGracefulRestartWithinGrace,
+	Respawn::TryGracefulRestartBeyondGrace,
+	Respawn::StopThenStart,
+];
+
+async fn respawn_case(path: Respawn, hook: Hook, casedir: &Path, helper: &Path) -> Result<Vec<(String, String)>, String> {
+	use watchexec_supervisor::Signal;
+	let _ = std::fs::remove_dir_all(casedir);
+	let wd = casedir.join(WORKDIR_NAME);
+	std::fs::create_dir_all(&wd).map_err(|e| format!("mkdir: {e}"))?;
+	let link = casedir.join("h");
+	std::os::unix::fs::symlink(helper, &link).map_err(|e| format!("symlink: {e}"))?;
+	let beyond = matches!(path, Respawn::GracefulRestartBeyondGrace | Respawn::TryGracefulRestartBeyondGrace);
+	let mode = if beyond { "linger-ignore" } else { "linger" };
+	let spec = Spec::Exec { prog: link.to_str().ok_or("non-utf8 scratch path")?.to_string(), args: vec![mode.to_string()] };
+	let (job, task) = start_job(Arc::new(build(&spec, OPTS4[0])));
+	match hook {
+		Hook::None => {}
+		Hook::Sync => {
+			let wd = wd.clone();
+			job.set_spawn_hook(move |c, _| {
+				c.command_mut().current_dir(&wd).env(PROBE_VAR, PROBE_VAL);
+			});
+		}
+		Hook::Async => {
+			let wd = wd.clone();
+			job.set_spawn_async_hook(move |c, _| {
+				c.command_mut().current_dir(&wd).env(PROBE_VAR, PROBE_VAL);
+				Box::new(async {})
+			});
+		}
+	}
+	let lines = || std::fs::read_to_string(casedir.join("dumps.jsonl")).map(|s| s.lines().map(str::to_string).collect::<Vec<_>>()).unwrap_or_default();
+	let wait_lines = |n: usize| async move {
+		let t0 = std::time::Instant::now();
+		while lines().len() < n {
+			if t0.elapsed() > Duration::from_secs(30) {
+				return Err(format!("process #{n} of the {path:?} case did not report within 30 s"));
+			}
+			tokio::time::sleep(Duration::from_millis(10)).await;
+		}
+		Ok(())
+	};
+	job.start().await;
+	wait_lines(1).await?;
+	let grace = Duration::from_millis(150);
+	match path {
+		Respawn::Restart => {
+			job.restart().await;
+		}
+		Respawn::TryRestart => {
+			job.try_restart().await;
+		}
+		Respawn::GracefulRestartWithinGrace | Respawn::GracefulRestartBeyondGrace => {
+			job.restart_with_signal(Signal::Terminate, if beyond { grace } else { Duration::from_secs(20) }).await;
+		}
+		Respawn::TryGracefulRestartWithinGrace | Respawn::TryGracefulRestartBeyondGrace => {
+			job.try_restart_with_signal(Signal::Terminate, if beyond { grace } else { Duration::from_secs(20) }).await;
+		}
+		Respawn::StopThenStart => {
+			job.stop().await;
+			job.start().await;
+		}
+	}
+	let second = wait_lines(2).await;
+	job.delete_now().await;
+	let _ = tokio::time::timeout(Duration::from_secs(10), task).await;
+	second?;
+	let mut v = vec![];
+	let all = lines();
+	if hook != Hook::None {
+		let h = if hook == Hook::Sync { "hook-sync" } else { "hook-async" };
+		for (i, l) in all.iter().enumerate().take(2) {
+			let d: Value = serde_json::from_str(l).unwrap_or(Value::Null);
+			let cwd = bytes_of(&d["cwd"]).unwrap_or_default();
+			let want_cwd = std::fs::canonicalize(&wd).unwrap_or(wd.clone());
+			let which = if i == 0 { "first" } else { "replacement" };
+			if cwd != want_cwd.as_os_str().as_bytes() {
+				v.push((format!("C18/respawn/{path:?}/{h}/cwd/{which}"), format!("hook set cwd {:?}, the {which} process ran in {:?}", want_cwd, String::from_utf8_lossy(&cwd))));
+			}
+			let probe = bytes_of(&d["probe"]);
+			if probe.as_deref() != Some(PROBE_VAL.as_bytes()) {
+				v.push((
+					format!("C18/respawn/{path:?}/{h}/env/{which}"),
+					format!("hook set {PROBE_VAR}={PROBE_VAL:?}, the {which} process saw {:?}", probe.map(|p| String::from_utf8_lossy(&p).into_owned())),
+				));
+			}
+		}
+	}
+	// the replacement receives the same argv
+	if let (Some(a), Some(b)) = (all.first(), all.get(1)) {
+		let (a, b): (Value, Value) = (serde_json::from_str(a).unwrap_or(Value::Null), serde_json::from_str(b).unwrap_or(Value::Null));
+		if a["argv"] != b["argv"] {
+			v.push((format!("C18/respawn/{path:?}/argv-differs"), format!("first process argv {} replacement argv {}", a["argv"], b["argv"])));
+		}
+	}
+	let _ = std::fs::remove_dir_all(casedir);
+	Ok(v)
+}
+
 // ---------------------------------------------------------------------------------------------
 // CLI
 
@@ -489,6 +608,7 @@ fn vectors(idx: &[usize], max: usize) -> Vec<Vec<String>> {
 
 #[derive(Clone)]
 enum Work {
+	Respawn(Respawn, Hook),
 	/// one Exec spec, all four option combinations
 	InspectExec(Spec),
 	/// shell options + program option fixed; inner loop over command x args x options
@@ -539,6 +659,21 @@ pub fn replay(input: &Value) -> Vec<(String, String)> {
 			let rt = tokio::runtime::Builder::new_current_thread().enable_all().build().expect("runtime");
 			match rt.block_on(spawn_case(&spec, o, hook, &scratch.path().join("c"), &helper, &my_ids())) {
 				Ok((v, _)) => v,
+				Err(e) => vec![("C18/replay/machinery".into(), e)],
+			}
+		}
+		"respawn" => {
+			let (Ok(path), Ok(hook)) = (serde_json::from_value::<Respawn>(input["path"].clone()), serde_json::from_value::<Hook>(input["hook"].clone())) else {
+				return bad("path/hook");
+			};
+			let helper = match helper_path() {
+				Ok(h) => h,
+				Err(e) => return vec![("C18/replay/machinery".into(), e)],
+			};
+			let scratch = Scratch::new("c18r");
+			let rt = tokio::runtime::Builder::new_current_thread().enable_all().build().expect("runtime");
+			match rt.block_on(respawn_case(path, hook, &scratch.path().join("r"), &helper)) {
+				Ok(v) => v,
 				Err(e) => vec![("C18/replay/machinery".into(), e)],
 			}
 		}
@@ -611,6 +746,12 @@ pub fn run(tier: Tier, seed: u64) -> EnumOut {
 					}
 				}
 			}
+		}
+	}
+	// real spawn / every replacement path x hook kind
+	for r in RESPAWNS {
+		for h in [Hook::Sync, Hook::Async, Hook::None] {
+			work.push(Work::Respawn(r, h));
 		}
 	}
 	// CLI
@@ -706,6 +847,25 @@ pub fn run(tier: Tier, seed: u64) -> EnumOut {
 						Err(e) => out.machinery = Some(e),
 					}
 				}
+				Work::Respawn(r, hook) => {
+					out.states += 1;
+					out.evaluations += 1;
+					bump(&mut out, "respawn_path_cases");
+					let mut res = rt.block_on(respawn_case(*r, *hook, &tdir.join("r"), &helper));
+					if res.is_err() {
+						bump(&mut out, "spawn_retries_after_timeout");
+						res = rt.block_on(respawn_case(*r, *hook, &tdir.join("r2"), &helper));
+					}
+					match res {
+						Ok(v) => {
+							out.nontrivial_mark(("respawn", format!("{r:?}"), *hook as u8));
+							for (k, d) in v {
+								out.violate(k, d, json!({"layer": "respawn", "path": r, "hook": hook}));
+							}
+						}
+						Err(e) => out.machinery = Some(e),
+					}
+				}
 				Work::Cli(c) => {
 					out.states += 1;
 					out.evaluations += 1;
@@ -729,7 +889,7 @@ pub fn run(tier: Tier, seed: u64) -> EnumOut {
 	};
 	// forking from many threads at once contends on the address-space lock: the spawn leg runs
 	// on at most 4 threads, everything else on all of them
-	let (spawns, rest): (Vec<Work>, Vec<Work>) = work.into_iter().partition(|w| matches!(w, Work::Spawn(..)));
+	let (spawns, rest): (Vec<Work>, Vec<Work>) = work.into_iter().partition(|w| matches!(w, Work::Spawn(..) | Work::Respawn(..)));
 	let t0 = std::time::Instant::now();
 	let mut out = par_map(&rest, threads, &worker);
 	let t1 = std::time::Instant::now();
